@@ -614,3 +614,61 @@ func VerifC03DataOnlyJoin() {
 	vassert(counts["join"] == 1 && counts["fast"] == 1 && counts["slow"] == 1, "every node executed exactly once")
 	vassert(out["n"] == 2 && got["fast"] != nil && got["slow"] != nil, "the join receives the field of its trigger and the field of its data-only predecessor, whichever finished first")
 }
+
+type c03PS struct{ N int }
+
+// Batch execution: the state post-handler (or pre-handler) of one of two parallel nodes panics. The run fails with an
+// error, and it does not return while the other node of the step is still running.
+func VerifC03HandlerPanicDrain() {
+	ctx := context.Background()
+	vcfg("preempt", 2)
+	running := 0
+	body := func(key string) *Lambda {
+		return InvokableLambda(func(ctx context.Context, in map[string]any) (map[string]any, error) {
+			vMu.Lock()
+			running++
+			vMu.Unlock()
+			vyield()
+			vyield()
+			vMu.Lock()
+			running--
+			vMu.Unlock()
+			return map[string]any{key: 1}, nil
+		})
+	}
+	post := vchoose("post", 2) == 1
+	var hopt GraphAddNodeOpt
+	if post {
+		hopt = WithStatePostHandler(func(ctx context.Context, out map[string]any, s *c03PS) (map[string]any, error) {
+			panic("c03 post-handler panic")
+		})
+	} else {
+		hopt = WithStatePreHandler(func(ctx context.Context, in map[string]any, s *c03PS) (map[string]any, error) {
+			panic("c03 pre-handler panic")
+		})
+	}
+	g := NewGraph[map[string]any, map[string]any](WithGenLocalState(func(ctx context.Context) *c03PS { return &c03PS{} }))
+	who := vchoose("who", 2)
+	for i, k := range []string{"a", "b"} {
+		if i == who {
+			_ = g.AddLambdaNode(k, body(k), hopt)
+		} else {
+			_ = g.AddLambdaNode(k, body(k))
+		}
+		_ = g.AddEdge(START, k)
+		_ = g.AddEdge(k, END)
+	}
+	var opts []GraphCompileOption
+	if vchoose("dag", 2) == 1 {
+		opts = append(opts, WithNodeTriggerMode(AllPredecessor))
+	}
+	r, err := g.Compile(ctx, opts...)
+	vassert(err == nil, "graph compiles")
+	_, rerr := r.Invoke(ctx, map[string]any{"in": 1})
+	vMu.Lock()
+	still := running
+	vMu.Unlock()
+	vassert(rerr != nil, "a panicking state handler makes the run fail with an error")
+	vassert(still == 0, "no node execution the run started is still running when the run returns")
+	vquiesce()
+}
